@@ -348,7 +348,12 @@ CLAIMED = {
         "including t, and the tokens before t - and every shorter prefix - extend to an accepted, hence derivable, input: "
         "t is the FIRST token that cannot continue a derivation (C02_syntax_error_first_offence, "
         "C02_syntax_error_earlier_viable, C02_derivable_answer; locality, fuel monotonicity and a completion lemma by "
-        "mutual induction over the five parsing functions; totality from ParseTotal.v). What remains a correspondence "
+        "mutual induction over the five parsing functions; totality from ParseTotal.v); carried to config_read "
+        "(ReadSyntax.v): C02_read_syntax_error - the read fails with error type parse, text 'syntax error', file and line of "
+        "that first offending token (or, when it is a scanner error token, the text and line the scanner recorded) - and "
+        "C02_read_trichotomy: every read of a byte string within the nesting limit has exactly one of three outcomes - "
+        "success with the denoted configuration, a semantic error, a syntax error at the first token that cannot continue "
+        "a derivation. What remains a correspondence "
         "matter is that grammar.c's LALR automaton (with default reductions) reports that same token: tied on every run "
         "by exhaustive enumeration of all viable token-kind prefixes (to length 5 quick / 7 thorough) with every one-token "
         "invalid extension, in several concrete spellings, overrides off/on, against the real library and against a "
